@@ -141,6 +141,9 @@ def run(prog, R):
             if not term_ok:
                 badv.append(cs[-2:])
         R.ob("C11.2-version-terminator", "openqasm_version reports a complete version only before `;` or whitespace", ntt >= 2 and not badv, ovb.at, f"{ntt} (true, true) paths; without a terminator test: {badv[:2]}")
+    import scanners as _sc
+    _sc.pound_arm_check(prog, R, "C11.1-pound-words")
+    R.premises(prog, "C11.1-location-premise", ["C12:C12.2-span-provenance"], "a lexical diagnostic is located on the malformed lexeme: the range built from the token table entry (C12.2)")
     R.premises(prog, "C11.4-include-premise", ["C18:C18.2-lock-step"], "the syntax errors of an included file gate the analysis only if that file is read and parsed: the pre-pass skips exactly `stdgates.inc`, with the predicate the analyser uses (C18.2)")
     R.premises(prog, "C11.2-block-comment-premise", ["C15:C15.4-"], "`terminated = (depth == 0)` flags an unterminated comment only if depth counts openers and closers correctly (both characters of each marker consumed)")
     bc = R.anchor(prog, "oq3_lexer::Cursor::block_comment")
